@@ -64,6 +64,9 @@ def run(chk):
     chk.trust("symx translation (if-conversion) and exhaustive truth tables", "sympy.cancel",
               "flags .phantom/.pool are genuine booleans (C18.R3 checks the merge keeps them boolean)")
     chk.assume("opaque calls (assort, has_contest) are pure functions of their arguments")
+    aud.keeps_no_state(chk, "C03.R1", REL, ["Assertion.overstatement_assorter", "Assertion.make_overstatement", "Assorter.overstatement",
+                                            "Assorter.mean", "Assorter.assort"],
+                       "B, omega and the mean are functions of the records handed in and of the margin of the moment")
     over = chk.fn(REL, "Assorter.overstatement")
     ba = chk.fn(REL, "Assertion.overstatement_assorter")
     mo = chk.fn(REL, "Assertion.make_overstatement")
